@@ -1,6 +1,7 @@
 import NanoVerif.Proofs.C06Loss
 import Mathlib.Analysis.SpecialFunctions.Log.Basic
 import Mathlib.Analysis.SpecialFunctions.Trigonometric.Arctan
+import Mathlib.Analysis.SpecialFunctions.Sqrt
 /-!
   C06 — the kernels with exp / log over `ℝ`: exponential, logistic (as coded, with the `x < 1` switch), class negative
   log-likelihood (log-sum-exp with the max-shift and the `+ε` inside the logarithm as coded), and the non-negativity of
@@ -12,12 +13,14 @@ set_option linter.unusedVariables false
 namespace NanoVerif.C06
 open NanoVerif.Loss NanoVerif.Fn
 
-noncomputable instance instTranscReal : Transc ℝ := ⟨Real.exp, Real.log, fun y => Real.log (1 + y), Real.arctan⟩
+noncomputable instance instTranscReal : Transc ℝ :=
+  ⟨Real.exp, Real.log, fun y => Real.log (1 + y), Real.arctan, Real.sqrt⟩
 
 @[simp] theorem texp_eq (x : ℝ) : Transc.exp x = Real.exp x := rfl
 @[simp] theorem tlog_eq (x : ℝ) : Transc.log x = Real.log x := rfl
 @[simp] theorem tlog1p_eq (x : ℝ) : Transc.log1p x = Real.log (1 + x) := rfl
 @[simp] theorem tatan_eq (x : ℝ) : Transc.atan x = Real.arctan x := rfl
+@[simp] theorem tsqrt_eq (x : ℝ) : Transc.sqrt x = Real.sqrt x := rfl
 
 /-- the tangent of `exp` at `u` lies below `exp` -/
 theorem exp_tangent (u v : ℝ) : Real.exp v ≥ Real.exp u * (1 + (v - u)) := by
